@@ -185,11 +185,12 @@ COMMON_ASSUMPTIONS = [
 
 
 # events of each profile at tier thorough without thinning (measured; recording is fast, validation runs at about
-# 27 k events/s over 16 TLC instances).  In the thorough tier every recorded run is thinned (pseudo-randomly, by
-# seed) to at most `budget` events so that a thorough check takes tens of minutes, not hours, and stays within
-# the disk budget (dec-bom alone would be 9 GB of trace).
+# 130 k events/s over 16 TLC instances on the idle box as long as one trace file holds <= ~300 k events - a TLC
+# instance keeps its whole file in memory).  In the thorough tier every recorded run is thinned (pseudo-randomly,
+# by seed) to at most `budget` events and sharded finely, so that a thorough check takes tens of minutes, not
+# hours, and stays within the disk budget (dec-bom alone would be 9 GB of trace).
 FULL_EVENTS = {'dec-whole': 8.8e6, 'dec-cutsets': 42.2e6, 'dec-bom': 76.3e6, 'dec-deep': 52.6e6, 'enc-cutsets': 30.6e6}
-THOROUGH_BUDGET = 5e6
+THOROUGH_BUDGET = 20e6
 
 
 def rv(rep, binp, profile, seed, tier, extra=(), tag=None, shards=None, build='default', budget=None):
@@ -207,6 +208,7 @@ def rv(rep, binp, profile, seed, tier, extra=(), tag=None, shards=None, build='d
         thin = max(thin, need)
         if thin > 1:
             extra += ['--thin', str(thin)]
+        shards = max(shards or 16, int(FULL_EVENTS[profile] / thin / 280e3) + 1)
     st = run_profile(binp, profile, outdir, seed, tier, shards=shards, extra=extra)
     spec = PROFILE_SPEC[profile]
     results = validate_traces(spec, st['files'])
